@@ -10,6 +10,11 @@ DRIVERS = [
          prebuild=[("calls_guestlib.cpp", "libcalls0.so", ["LIB=0"]), ("calls_guestlib.cpp", "libcalls1.so", ["LIB=1"])]),
     dict(name="calls_dylib_etls", src="calls.cpp", defines=["CALLS_DYLIB", "RLBOX_EMBEDDER_PROVIDES_TLS_STATIC_VARIABLES"], ops=["callsde"], flags=["-rdynamic"],
          prebuild=[("calls_guestlib.cpp", "libcalls0.so", ["LIB=0"]), ("calls_guestlib.cpp", "libcalls1.so", ["LIB=1"])]),
+    dict(name="cbk_32", src="cbk.cpp", defines=["VERIF_CFG=verif_cfg32"], ops=["cbk32"]),
+    dict(name="cbk_16", src="cbk.cpp", defines=["VERIF_CFG=verif_cfg16"], ops=["cbk16"]),
+    dict(name="cbk_64", src="cbk.cpp", defines=["VERIF_CFG=verif_cfg64"], ops=["cbk64"]),
+    dict(name="cbk_wide", src="cbk.cpp", defines=["VERIF_CFG=verif_cfgwide"], ops=["cbkw"]),
+    dict(name="cbk_noop", src="cbk.cpp", defines=["CBK_NOOP"], ops=["cbkn"]),
     dict(name="calls_noop_etls", src="calls.cpp", defines=["CALLS_NOOP", "RLBOX_EMBEDDER_PROVIDES_TLS_STATIC_VARIABLES"], ops=["callsne"]),
 ]
 
@@ -23,17 +28,61 @@ def gen_cases(tier, rng):
     cases += callscommon.gen("callsne", tier, rng, 3, 1500 if q else 15000, 6)
     cases += callscommon.gen("callsd", tier, rng, 3, 800 if q else 8000, 6)
     cases += callscommon.gen("callsde", tier, rng, 3, 800 if q else 8000, 6)
+    cases += cbk_cases()
     return cases
 
 
+INT_KINDS = {"schar": (1, True), "uchar": (1, False), "short": (2, True), "ushort": (2, False), "int": (4, True), "uint": (4, False),
+             "long": (8, True), "ulong": (8, False), "llong": (8, True), "ullong": (8, False)}
+# guest width of each application kind per configuration (rlbox ABI parameters of the harness back ends)
+GUEST_SIZE = {
+    "lp32": {"schar": 1, "uchar": 1, "short": 2, "ushort": 2, "int": 4, "uint": 4, "long": 4, "ulong": 4, "llong": 8, "ullong": 8},
+    "wide": {"schar": 1, "uchar": 1, "short": 4, "ushort": 4, "int": 8, "uint": 8, "long": 8, "ulong": 8, "llong": 8, "ullong": 8},
+    "host": {k: v[0] for k, v in INT_KINDS.items()},
+}
+
+
+def rng_of(size, signed):
+    return (-(1 << (8 * size - 1)), (1 << (8 * size - 1)) - 1) if signed else (0, (1 << (8 * size)) - 1)
+
+
+def cbk_cases():
+    """one guest call per case: the callback's parameter / result is a data pointer (null, first bytes, far end of the sandbox)
+    or an integer of every width and signedness, at the boundaries of both the application's and the guest's type"""
+    out = []
+    for op, abi, far in (("cbk32", "lp32", (1 << 32) - 4), ("cbk16", "lp32", (1 << 16) - 4), ("cbk64", "lp32", (1 << 32) - 4),
+                         ("cbkw", "wide", (1 << 32) - 4), ("cbkn", "host", (1 << 16) - 4)):
+        for pk in ("ptr", "cptr", "vptr"):
+            for off in (0, 4, 8, 4096, 65532 if far > 65532 else 1024, far):
+                out.append("%s p %s %d" % (op, pk, off))
+                out.append("%s r %s %d" % (op, pk, off))
+        for k, (asz, sg) in INT_KINDS.items():
+            gsz = GUEST_SIZE[abi][k]
+            alo, ahi = rng_of(asz, sg)
+            glo, ghi = rng_of(gsz, sg)
+            vals = {0, 1, 7, alo, ahi, glo, ghi}
+            if sg:
+                vals.add(-1)
+            for v in sorted(vals):
+                for d in (-1, 0, 1):
+                    x = v + d
+                    if glo <= x <= ghi:        # what guest code can pass
+                        out.append("%s p %s %d" % (op, k, x))
+                    if alo <= x <= ahi:        # what the application function can return
+                        out.append("%s r %s %d" % (op, k, x))
+    return sorted(set(out))
+
+
 def NONTRIVIAL(case, model, cls):
-    return " R:" in model
+    return " R:" in model or model.startswith("R:") or model.startswith("GG:")
 
 
 RULE = ("register/unregister history over 3 sandbox instances and a pool of 8 application functions of two signatures (4 returning a value, 4 void; identical signatures share "
         "trampolines on the shipped back end), slot reuse after unregistration, full tables; then guest calls of entry points inside call trees (every shape to depth 3, random to depth 6/7, "
         "width 3, nesting across the three instances, dead entry points with probability 0.05), argument/result values at the representability boundaries; back ends verif32, verifwide, "
-        "rlbox_noop_sandbox with library TLS and with embedder-provided TLS. Compared: which function ran, which sandbox reference it was given, the argument it saw, the value guest code got "
+        "rlbox_noop_sandbox with library TLS and with embedder-provided TLS; plus single guest calls of a callback whose parameter / result is a data pointer "
+        "(null, first bytes, far end; int*, const char*, void*) or an integer of every width and signedness at the boundaries of the application's and the guest's type, "
+        "on verif32/16/64/wide and rlbox_noop_sandbox. Compared: which function ran, which sandbox reference it was given, the argument it saw, the value guest code got "
         "back, abort flag, thread record afterwards. Non-trivial: at least one application callback ran.")
 TRUSTED = ["model coq/Calls.v + coq/World.v hand-written; tied by differential correspondence of whole call trees"]
 ASSUMPTIONS = ["registrations do not change while a tree is running (histories precede the tree)", "rlbox_dylib_sandbox is driven with two real shared objects exporting the same names (built at check time)",
